@@ -3,6 +3,7 @@
 //!   fvharness search <Cxx> <seed> <n>   evaluates the property itself on the real code with an independent oracle
 mod util;
 mod c05;
+mod c17;
 mod c18;
 
 fn main() {
@@ -20,6 +21,8 @@ fn main() {
     match (mode, prop) {
         ("corr", "C05") => c05::corr(seed, n),
         ("search", "C05") => c05::search(seed, n),
+        ("corr", "C17") => c17::corr(seed, n),
+        ("search", "C17") => c17::search(seed, n),
         ("corr", "C18") => c18::corr(seed, n),
         ("search", "C18") => c18::search(seed, n),
         _ => {
